@@ -174,6 +174,18 @@ def DelayProb.nominal (d : DelayProb) : Rat := resRat (d.expr.eval (symNominal d
 def DelayProb.rows (d : DelayProb) : List Res :=
   (List.range d.ts.length).map (fun k => ((d.yAt k).sub (d.delayedAt k)).divBy d.nominal)
 
+/-! ### the receiving variable named through the alias relation -/
+
+/-- `self.alias_relation.canonical_signed(name)`: the canonical name and whether the alias is negated -/
+def canonicalSigned (aliases : List (String × (String × Bool))) (name : String) : String × Bool :=
+  (aliases.lookup name).getD (name, false)
+
+/-- the delay problem whose receiving variable is given by NAME: resolved through the alias relation
+    to the column of the canonical variable and the sign -/
+def DelayProb.named (d : DelayProb) (aliases : List (String × (String × Bool))) (colNames : List String)
+    (name : String) : DelayProb :=
+  { d with out := colNames.idxOf (canonicalSigned aliases name).1, outNeg := (canonicalSigned aliases name).2 }
+
 /-! ## simulation -/
 
 /-- `int(np.ceil(q))` for a rational -/
